@@ -29,6 +29,9 @@ def programs(env, tier):
                 prog += [(t[0], 0), (t[1], 1)]
             two.append((2, prog))
     two.append((2, [(a1[9], 0), (("CNOT",), 0), (a1[4], 1), (("CNOT", 0), 0), (a1[7], 0)]))
+    anc = ("ANC", env.R2)          # ancilla between the rails of a qubit
+    one += [(1, [(anc, 0)]), (1, [(a1[4], 0), (anc, 0)]), (1, [(anc, 0), (a1[9], 0)])]
+    two.append((2, [(a1[0], 0), (anc, 1), (("CNOT",), 0), (a1[4], 1)]))
     return one, two
 
 
